@@ -177,6 +177,7 @@ pub struct World {
     /// bytes per client address: (received by the server from it, sent by the server to it)
     pub bytes: HashMap<SocketAddr, (u64, u64)>,
     pub handshake_done: HashMap<SocketAddr, bool>,
+    pub take_limit: Option<usize>,
     untracked_reported: bool,
     /// nonces the server has sent to each address in SYN-ACKs (from the wire)
     pub synack_nonces: HashMap<SocketAddr, Vec<u32>>,
@@ -267,6 +268,7 @@ impl World {
             keep_trace: true,
             bytes: HashMap::new(),
             handshake_done: HashMap::new(),
+            take_limit: None,
             untracked_reported: false,
             synack_nonces: HashMap::new(),
             verified: HashMap::new(),
@@ -580,7 +582,12 @@ impl World {
         let now = self.now_ns;
         let evs: Option<Vec<uflow::server::Event>> = {
             let srv = self.server.server.as_mut().unwrap();
-            ep_call!(self, 10, "Server::step", srv.step().collect())
+            // an application may stop reading the iterator early (the unread events count as
+            // delivered by the documentation); `take_limit` is set by the partial-read family only
+            match self.take_limit {
+                Some(k) => ep_call!(self, 10, "Server::step", srv.step().take(k).collect()),
+                None => ep_call!(self, 10, "Server::step", srv.step().collect()),
+            }
         };
         self.pump();
         let s = &mut self.server;
@@ -722,7 +729,10 @@ impl World {
         let now = self.now_ns;
         let evs: Option<Vec<uflow::client::Event>> = {
             let cl = self.clients[i].client.as_mut().unwrap();
-            ep_call!(self, 10, "Client::step", cl.step().collect())
+            match self.take_limit {
+                Some(k) => ep_call!(self, 10, "Client::step", cl.step().take(k).collect()),
+                None => ep_call!(self, 10, "Client::step", cl.step().collect()),
+            }
         };
         self.pump();
         let dt = {
